@@ -49,18 +49,43 @@ function OBSROW(owner, name, exp){
   var hop = Object.prototype.hasOwnProperty.call(o, name);
   if (d === undefined) {
     if (hop) return {own:"hasOwnProperty disagrees"};
-    return {own:"none", attrs:[], ty:"undefined", val:{t:"none"}};
+    return exp ? {own:"none", attrs:[], ty:"undefined", val:{t:"none"}, beh:[]} : {own:"none", attrs:[], ty:"undefined", val:{t:"none"}};
   }
   if (!hop) return {own:"hasOwnProperty disagrees"};
   if (Object.prototype.propertyIsEnumerable.call(o, name) !== d.enumerable) return {own:"propertyIsEnumerable disagrees"};
   if ("get" in d || "set" in d)
-    return {own:"acc", attrs:["-", ATTR(d.enumerable), ATTR(d.configurable)], ty:"accessor", val:{t:"acc", get:ENCP(d.get), set:ENCP(d.set)}};
+  {
+    var ra = {own:"acc", attrs:["-", ATTR(d.enumerable), ATTR(d.configurable)], ty:"accessor", val:{t:"acc", get:ENCP(d.get), set:ENCP(d.set)}};
+    if (exp) ra.beh = [];
+    return ra;
+  }
   var v = d.value, a = [ATTR(d.writable), ATTR(d.enumerable), ATTR(d.configurable)];
   if (!SAMEV(o[name], v)) return {own:"[[Get]] disagrees with the descriptor"};
   var ea = (exp && exp.attrs) || [];
   for (var i = 0; i < 3; i++) if (ea[i] === "?") a[i] = "?";       // attribute ES5 leaves open
   var anyv = exp && exp.val && exp.val.t === "any";                 // value ES5 leaves open: type only
-  return {own:"data", attrs:a, ty:typeof v, val: anyv ? {t:"any"} : ENCP(v)};
+  var r = {own:"data", attrs:a, ty:typeof v, val: anyv ? {t:"any"} : ENCP(v)};
+  if (exp && exp.beh !== undefined) r.beh = exp.beh.length === 2 ? BEHAVE(o, name, d, exp.beh) : [];
+  return r;
+}
+// what the attributes DO: [[Put]] of a fresh object, [[Delete]]; the property is restored.  Nothing is
+// looked up on the library between the change and the restoration (the intrinsics are captured first).
+function BEHAVE(o, name, d, mask){
+  var gopd = Object.getOwnPropertyDescriptor, dp = Object.defineProperty, sentinel = {}, put, del;
+  var old = d.value;
+  try { o[name] = sentinel; } catch (e) { return ["put throws " + e.name, "-"]; }
+  put = o[name] === sentinel ? "T" : (SAMEV(o[name], old) ? "F" : "!");
+  if (put === "T") { o[name] = old; if (!SAMEV(o[name], old)) put = "not restorable"; }
+  var res;
+  try { res = delete o[name]; } catch (e) { return [put, "delete throws " + e.name]; }
+  var still = gopd(o, name) !== undefined;
+  del = (res === true && !still) ? "T" : ((res === false && still) ? "F" : "!" + res + still);
+  if (!still) dp(o, name, {value:old, writable:d.writable, enumerable:d.enumerable, configurable:d.configurable});
+  var back = gopd(o, name);
+  if (back === undefined || !SAMEV(back.value, old) || back.writable !== d.writable || back.enumerable !== d.enumerable || back.configurable !== d.configurable) del = "not restored";
+  if (mask[0] === "?") put = "?";
+  if (mask[1] === "?") del = "?";
+  return [put, del];
 }
 
 function CALLRES(F, src){
@@ -73,7 +98,7 @@ function CALLON(id, src){ return JSON.stringify(CALLRES(REG[id], src)); }
 
 function OBSOBJ(l){
   var o = REG[l.id];
-  if (!ISOBJ(o)) return {ty:typeof o, cls:"", proto:"", ext:false, missing:l.names, enumextra:[], call:[]};
+  if (!ISOBJ(o)) return {ty:typeof o, "new":"", cls:"", proto:"", ext:false, missing:l.names, enumextra:[]};
   var own = Object.getOwnPropertyNames(o), missing = [], enumextra = [], extra = [];
   for (var i = 0; i < l.names.length; i++)
     if (!Object.prototype.hasOwnProperty.call(o, l.names[i])) missing.push(l.names[i]);
@@ -81,19 +106,33 @@ function OBSOBJ(l){
     var known = false;
     for (var k = 0; k < l.names.length; k++) if (l.names[k] === own[j]) known = true;
     if (known) continue;
-    var d = Object.getOwnPropertyDescriptor(o, own[j]);
-    extra.push(own[j] + (d.enumerable ? "(enumerable)" : ""));
-    if (d.enumerable) enumextra.push(own[j]);
+    var en = Object.prototype.propertyIsEnumerable.call(o, own[j]);
+    extra.push(own[j] + (en ? "(enumerable)" : ""));
+    if (en) enumextra.push(own[j]);
   }
   if (extra.length && l.grp !== "inst") XTRA[l.id] = extra;
   enumextra.sort();
-  return {ty:typeof o,
+  var nw = "n/a";
+  if (l.exp["new"] !== "n/a") nw = T(function(){ new o(); });
+  return {ty:typeof o, "new": nw,
           cls: l.mask.cls ? CLS(o) : "?",
           proto: l.mask.proto ? PATHOF(Object.getPrototypeOf(o)) : "?",
           ext: Object.isExtensible(o),
           missing: missing,
-          enumextra: l.mask.enumextra ? enumextra : [],
-          call: l.call === "" ? [] : [CALLRES(o, l.call)]};
+          enumextra: l.mask.enumextra ? enumextra : []};
+}
+// Object.getOwnPropertyDescriptor answers for every own property (a Go panic is seen by the caller)
+function REFLECTALL(id){
+  var o = REG[id];
+  if (!ISOBJ(o)) return "not an object";
+  var own = Object.getOwnPropertyNames(o);
+  for (var j = 0; j < own.length; j++) {
+    var d = Object.getOwnPropertyDescriptor(o, own[j]);
+    if (d === undefined) return "no descriptor for own name " + own[j];
+    if (typeof d.enumerable !== "boolean" || typeof d.configurable !== "boolean") return "incomplete descriptor for " + own[j];
+    if (("get" in d || "set" in d) === ("value" in d || "writable" in d)) return "descriptor of " + own[j] + " is neither data nor accessor";
+  }
+  return "ok";
 }
 function EXTRAS(){ return JSON.stringify(XTRA); }
 
@@ -108,14 +147,51 @@ function OBSLINE(text){
   var l = JSON.parse(text), r;
   if (l.k === "obj") r = OBSOBJ(l);
   else if (l.k === "row") r = OBSROW(l.owner, l.name, l.exp);
+  else if (l.k === "call") r = CALLRES(REG[l.id], l.call);
   else r = FORIN(l.js);
   return JSON.stringify(r);
+}
+
+// judge direction: every own property of every object of the table, and of the objects the implementation
+// hangs on library objects beyond the table (registered on discovery as owner.name), raw (unmasked)
+function WALK(listedIds, instIds, noReflect){
+  // noReflect: {id: [names of the table]} for the objects whose additional properties cannot be reflected
+  var listed = {}, inst = {}, unl = {}, evs = [], i;
+  for (i = 0; i < listedIds.length; i++) listed[listedIds[i]] = true;
+  for (i = 0; i < instIds.length; i++) inst[instIds[i]] = true;
+  var queue = REGIDS.slice();
+  for (var q = 0; q < queue.length; q++) {
+    var id = queue[q], o = REG[id], isl = listed[id] === true;
+    if (!ISOBJ(o)) { evs.push({ev:"obj", id:id, listed:isl, fn:false, host:false, obs:{ty:typeof o, cls:"", proto:"", ext:false}}); continue; }
+    var isfn = typeof o === "function", host = !isl && !isfn;
+    evs.push({ev:"obj", id:id, listed:isl, fn:isfn, host:host,
+              obs:{ty:typeof o, cls:CLS(o), proto:PATHOF(Object.getPrototypeOf(o)), ext:Object.isExtensible(o)}});
+    var names = Object.getOwnPropertyNames(o);
+    for (var j = 0; j < names.length; j++) {
+      var n = names[j], sk = false, keep = noReflect[id];
+      if (keep !== undefined) { sk = true; for (var k = 0; k < keep.length; k++) if (keep[k] === n) sk = false; }
+      var en = Object.prototype.propertyIsEnumerable.call(o, n), obs;
+      if (sk) obs = {own:"unreflected", attrs:[], ty:"", val:{t:"none"}};
+      else {
+        var d = Object.getOwnPropertyDescriptor(o, n);
+        // discover: an unregistered object hanging on a library object (not on the global object, not on an instance)
+        if (isl && id !== "global" && inst[id] !== true && d !== undefined && ISOBJ(d.value) && PATHOF(d.value) === "?") {
+          var nid = id + "." + n; REG[nid] = d.value; REGIDS.push(nid); queue.push(nid);
+        }
+        obs = OBSROW(id, n, null);
+        if (obs.attrs === undefined) obs = {own:obs.own, attrs:[], ty:"", val:{t:"none"}};
+      }
+      evs.push({ev:"prop", o:id, listed:isl, fn:isfn, host:host, n:n, e:en, obs:obs});
+    }
+  }
+  return JSON.stringify(evs);
 }
 
 // the complete shape of everything reachable from the global object: objects numbered in order of
 // discovery; per object typeof, [[Class]], [[Prototype]], [[Extensible]], own properties in the order of
 // Object.getOwnPropertyNames with attributes and value (primitive text or object number)
-function DUMP(){
+function DUMP(skip){
+  skip = skip || [];
   var objs = [GLOBAL], out = [];
   function idOf(v){
     for (var i = 0; i < objs.length; i++) if (objs[i] === v) return i;
@@ -134,6 +210,9 @@ function DUMP(){
     out.push(head);
     var names = Object.getOwnPropertyNames(o);
     for (var i = 0; i < names.length; i++) {
+      var sk = false;
+      for (var q = 0; q < skip.length; q++) if (skip[q] === names[i]) sk = true;
+      if (sk) { out.push("  " + JSON.stringify(names[i]) + " (not reflected) e=" + Object.prototype.propertyIsEnumerable.call(o, names[i])); continue; }
       var d = Object.getOwnPropertyDescriptor(o, names[i]);
       if ("get" in d || "set" in d)
         out.push("  " + JSON.stringify(names[i]) + " acc " + ATTR(d.enumerable) + ATTR(d.configurable) + " get=" + show(d.get) + " set=" + show(d.set));
